@@ -65,9 +65,9 @@ pub fn stage_view(spec: &StageSpec, input: &[V], announced: Option<usize>) -> Ex
             Some(c) => skip(c),
             None => Expect::Exact(Vec::new()),
         },
-        DynHeadInit(i, _) => head(announced.unwrap_or(i)),
-        DynTailInit(i, _) => tail(announced.unwrap_or(i)),
-        DynSkipInit(i, _) => skip(announced.unwrap_or(i)),
+        DynHeadInit(i, _) | ObsDynHeadInit(i, _) => head(announced.unwrap_or(i)),
+        DynTailInit(i, _) | ObsDynTailInit(i, _) => tail(announced.unwrap_or(i)),
+        DynSkipInit(i, _) | ObsDynSkipInit(i, _) => skip(announced.unwrap_or(i)),
         Filter(m) => Expect::Exact(input.iter().copied().filter(|v| keep(m, v.0)).collect()),
         FilterMap(m) => Expect::Exact(input.iter().copied().filter(|v| keep(m, v.0)).map(map_v).collect()),
         Sort => Expect::Sorted { items: input.to_vec(), cmp: CmpKind::Ord },
